@@ -137,13 +137,14 @@ class LObj(HObj):
     symbolic sequence `sym` (Sym of kind ('seq', k)).  For a deque, index 0 is
     the *left* end."""
 
-    def __init__(self, items=None, sym=None, flavor='list'):
+    def __init__(self, items=None, sym=None, flavor='list', maxlen=None):
         self.items = items
         self.sym = sym
         self.flavor = flavor
+        self.maxlen = maxlen  # deque(maxlen=n) or None
 
     def clone(self):
-        return LObj(list(self.items) if self.items is not None else None, self.sym, self.flavor)
+        return LObj(list(self.items) if self.items is not None else None, self.sym, self.flavor, self.maxlen)
 
     def __repr__(self):
         return f'LObj<{self.flavor}>({self.items if self.items is not None else self.sym})'
@@ -205,6 +206,35 @@ class ElemRef:
 
     def __repr__(self):
         return f'ElemRef({self.mref}, {self.key})'
+
+
+class ExtObj(HObj):
+    """Extension point: a heap object kind defined outside the core (pyvc/ext_*.py).  The core only
+    dispatches to these methods; anything not overridden is Unsupported (never silently skipped)."""
+
+    def ext_truth(self, ex, ref):
+        raise NotImplementedError
+
+    def ext_len(self, ex, ref):
+        raise NotImplementedError
+
+    def ext_for(self, ex, ref, stmt, spec):
+        """execute the for statement `stmt` over this object (spec: its LoopSpec or None)"""
+        raise NotImplementedError
+
+    def ext_method(self, ex, ref, name, args, kwargs):
+        raise NotImplementedError
+
+    def ext_subscript(self, ex, ref, i):
+        raise NotImplementedError
+
+    def ext_havoc(self, ex, ref, hint):
+        """forget the content (loop / await / callee havoc of a location holding this object)"""
+        raise NotImplementedError
+
+    def ext_unchanged(self, ex, other):
+        """term / bool: `other` (same object in another heap) has the same content (frame check)"""
+        raise NotImplementedError
 
 
 class Frame(HObj):
